@@ -141,15 +141,19 @@ func (e *kvElection) checkKeyAndReelect(ctx context.Context) {
 		return
 	}
 
+	// Also when no leader is known yet: a follower whose watch could not be
+	// established has nothing but this check to learn who leads.
 	currentLeaderID := e.LeaderID()
-	if currentLeaderID != "" && currentLeaderID != newLeaderID {
-		log := e.getLogger()
-		log.Info("leader_changed_periodic_check",
-			append(e.logWithContext(ctx),
-				zap.String("old_leader_id", currentLeaderID),
-				zap.String("new_leader_id", newLeaderID),
-			)...,
-		)
+	if currentLeaderID != newLeaderID {
+		if currentLeaderID != "" {
+			log := e.getLogger()
+			log.Info("leader_changed_periodic_check",
+				append(e.logWithContext(ctx),
+					zap.String("old_leader_id", currentLeaderID),
+					zap.String("new_leader_id", newLeaderID),
+				)...,
+			)
+		}
 		e.observeLeader(newLeaderID, entry.Revision())
 	}
 }
